@@ -68,6 +68,15 @@ pub const ROOT_FENS: &[(&str, &str)] = &[
     ("check", "r1bqkb1r/pp3ppp/5n2/2ppn1N1/4pP2/1BN1P3/PPPP2PP/R1BQ1RK1 w kq - 0 9"),
     ("check", "3rk3/8/8/8/8/8/3B4/3K4 w - - 0 1"),
     ("check", "k7/8/8/8/4q3/8/2N5/1K6 w - - 0 1"),
+    // discovered DOUBLE check while a further slider pins a defender (position before the move);
+    // the colour mirrors reverse the order in which the library scans the sliders
+    ("check", "4r1k1/8/8/4n3/8/8/8/r1B1K3 b - - 0 1"),
+    ("check", "4q1k1/8/8/8/1b2R3/8/3n4/4K3 b - - 0 1"),
+    ("check", "6k1/8/8/8/1b6/8/3NR3/4K2r w - - 0 1"),
+    // two men pinned along different lines (same kind and different kinds)
+    ("check", "4r1k1/8/8/8/8/8/4R3/r2RK3 w - - 0 1"),
+    ("check", "4r1k1/8/8/8/1b6/8/3NR3/4K3 w - - 0 1"),
+    ("check", "3q2k1/8/8/8/b7/8/2B5/3BK3 w - - 0 1"),
     // --- terminal neighbourhoods
     ("mate", "6k1/5ppp/8/8/8/8/8/R3K3 w Q - 0 1"),
     ("mate", "7k/5Q2/8/8/8/8/8/K7 w - - 0 1"),
@@ -142,6 +151,10 @@ pub trait Family: Sync {
     fn name(&self) -> String;
     fn size(&self) -> u64;
     fn get(&self, i: u64) -> Option<RefPos>;
+    /// Restrict the action menu AT THE MEMBER ITSELF (deeper levels always use the full menu).
+    fn first_moves(&self, _p: &RefPos) -> Option<Vec<RMove>> {
+        None
+    }
 }
 
 fn take(i: &mut u64, n: u64) -> u64 {
@@ -257,10 +270,20 @@ impl Extra {
 /// optional extra man.  Both colours, all files, both sides of the pushed pawn.
 pub struct EpFamily {
     pub extra: Extra,
+    /// true: the member is the position BEFORE the double push (pawn back on its origin square,
+    /// pusher to move), so that the push itself is a transition made by the library
+    pub pre_push: bool,
 }
 impl Family for EpFamily {
+    fn first_moves(&self, p: &RefPos) -> Option<Vec<RMove>> {
+        if self.pre_push {
+            Some(EpFamily::pushes(p))
+        } else {
+            None
+        }
+    }
     fn name(&self) -> String {
-        format!("en-passant family (extra man: {:?})", self.extra)
+        format!("en-passant family (extra man: {:?}{})", self.extra, if self.pre_push { "; positions before the double push, first action restricted to the push" } else { "" })
     }
     fn size(&self) -> u64 {
         2 * 8 * 2 * 64 * 64 * self.extra.n()
@@ -289,7 +312,23 @@ impl Family for EpFamily {
             }
         }
         p.dp = f;
-        valid(p)
+        let p = valid(p)?;
+        if self.pre_push {
+            let mut q = p;
+            q.dp = -1;
+            q.stm = pusher;
+            q.clear(sq(f, r));
+            q.put(sq(f, r - 2 * pusher.dir()), Kind::P, pusher);
+            return valid(q);
+        }
+        Some(p)
+    }
+}
+
+impl EpFamily {
+    /// the double pushes of a pre-push member that land beside an enemy pawn
+    fn pushes(p: &RefPos) -> Vec<RMove> {
+        p.legal_moves().into_iter().filter(|m| p.is_double_push(*m) && p.apply(*m).ep_adjacent()).collect()
     }
 }
 
@@ -581,23 +620,25 @@ pub fn generate_feature_roots(depth: u32, per_base_cap: usize) -> Vec<RefPos> {
         }
     }
     bases.extend(roots().into_iter().filter(|r| r.pos.men() >= 7).map(|r| r.pos));
-    // per base: BFS, collect (signature, position) of first occurrences
+    // per base: BFS, collect for the first occurrence of every signature the PARENT position
+    // (so that exploring one ply below the stored root reaches the representative through the
+    // library's incremental move application, not only by construction from scratch)
     let found: Vec<Vec<(u64, RefPos)>> = bases
         .par_iter()
         .map(|b| {
             let mut seen_pos: BTreeSet<RefPos> = BTreeSet::new();
             let mut sigs: std::collections::BTreeMap<u64, RefPos> = std::collections::BTreeMap::new();
-            let mut frontier = vec![*b];
+            let mut frontier: Vec<(RefPos, RefPos)> = vec![(*b, *b)];
             for _ in 0..=depth {
                 let mut next = vec![];
-                for p in frontier.iter() {
+                for (p, parent) in frontier.iter() {
                     if !seen_pos.insert(*p) {
                         continue;
                     }
-                    sigs.entry(signature(p)).or_insert(*p);
+                    sigs.entry(signature(p)).or_insert(*parent);
                     if seen_pos.len() < per_base_cap {
                         for m in p.legal_moves() {
-                            next.push(p.apply(m));
+                            next.push((p.apply(m), *p));
                         }
                     }
                 }
@@ -612,7 +653,10 @@ pub fn generate_feature_roots(depth: u32, per_base_cap: usize) -> Vec<RefPos> {
             all.entry(s).or_insert(p);
         }
     }
-    all.into_values().collect()
+    let mut out: Vec<RefPos> = all.into_values().collect();
+    out.sort();
+    out.dedup();
+    out
 }
 
 /// The stored feature roots (harness/feature_roots.txt), each validated by the reference.
